@@ -435,10 +435,14 @@ class Balancer:
         other_side = truism.args[1][len(truism.args[1]) - 1 : len(truism.args[1]) - num_zeroes]
 
         if claripy.backends.vsa.is_true(other_side == 0):
-            # We can safely eliminate this layer of ZeroExt
-            return Bool(truism.op, (inner, truism.args[1][len(truism.args[1]) - num_zeroes - 1 : 0]))
+            # We can safely eliminate this layer of ZeroExt. Both sides are non-negative in the wider width, so a signed
+            # comparison there is an unsigned comparison of the narrower values.
+            op = Balancer._unsigned_comparison.get(truism.op, truism.op) if num_zeroes > 0 else truism.op
+            return Bool(op, (inner, truism.args[1][len(truism.args[1]) - num_zeroes - 1 : 0]))
 
         return truism
+
+    _unsigned_comparison = {"SLT": "ULT", "SLE": "ULE", "SGT": "UGT", "SGE": "UGE"}  # noqa: RUF012
 
     @staticmethod
     def _balance_signext(truism):
@@ -534,7 +538,9 @@ class Balancer:
             # we can cut these guys off!
             remaining_left = claripy.Concat(*truism.args[0].args[1:])
             remaining_right = truism.args[1][size - len(left_msb) - 1 : 0]
-            return Bool(truism.op, (remaining_left, remaining_right))
+            # both sides are non-negative in the full width: a signed comparison becomes unsigned on the remainder
+            op = Balancer._unsigned_comparison.get(truism.op, truism.op)
+            return Bool(op, (remaining_left, remaining_right))
         # TODO: handle non-zero single-valued cases
         return truism
 
